@@ -12,10 +12,10 @@ from .common import peer_bytes, sha256_int, peer_key, bump
 ID = "C15"
 AREA = "c15"
 LEAN_PROPS = "Litep2pVerif.Props.C15"
-THEOREMS = ["no_self", "no_requery", "terminal_once", "terminates", "parallelism_zero_stuck",
-            "success_sorted_bounded", "success_answered", "success_closer_contacted", "parallelism_bound",
-            "default_parallelism_pos", "lookup_no_self_no_requery", "lookup_parallelism_bound", "lookup_progress",
-            "records_once", "providers_once", "quorum_stop", "local_record_double_count"]
+THEOREMS = ["no_self", "no_requery", "terminates", "parallelism_zero_stuck", "parallelism_bound",
+            "success_sorted_bounded", "success_answered", "success_closer_contacted", "terminal_once",
+            "default_parallelism_pos", "lookup_parallelism_bound", "records_once", "quorum_stop",
+            "local_record_double_count", "providers_once"]
 CONSTS = ["KAD_PARALLELISM_FACTOR", "KAD_REPLICATION_FACTOR", "KAD_DEFAULT_PEER_TIMEOUT_SECS"]
 CONST_TABLE = [
     ("KAD_PARALLELISM_FACTOR", "src/protocol/libp2p/kademlia/mod.rs", r"const PARALLELISM_FACTOR: usize = ([^;]+);", 3),
